@@ -593,6 +593,9 @@ class ExcelCompiler:
                     else:
                         # trim this cell, now we will need only its value
                         needed_cells.add(child_address)
+                        if child_cell.formula and child_cell.needs_calc:
+                            # which might not have been calculated yet
+                            self._evaluate(child_address)
                         child_cell.formula = None
                         self.log.debug(f'Trimming {child_address}')
 
